@@ -128,6 +128,11 @@ def _terminates(body) -> bool:
     return True
   if isinstance(last, ast.If) and last.orelse:
     return _terminates(last.body) and _terminates(last.orelse)
+  if isinstance(last, ast.Try):
+    if _terminates(last.finalbody):
+      return True
+    return (_terminates(last.orelse) if last.orelse else _terminates(
+        last.body)) and all(_terminates(h_.body) for h_ in last.handlers)
   return False
 
 
@@ -528,9 +533,13 @@ class Inliner:
     if b is None:
       return None
     body = copy.deepcopy(_strip_doc(h.node.body))
-    body = _tailify(body)
-    if not _returns_in_tail(body):
-      return None
+    # `return h(args)`: a return anywhere in h (in a loop, a try, a with) is a
+    # return of the caller; otherwise every return has to be in tail position
+    anywhere = kind == 'return'
+    if not anywhere:
+      body = _tailify(body)
+      if not _returns_in_tail(body):
+        return None
     if not self._requalify(body, h, f):
       return None
     tag = '__' + h.name.strip('_')
@@ -541,6 +550,10 @@ class Inliner:
     body = holder.body
 
     def conv(stmts):
+      if anywhere:
+        if not _terminates(stmts):
+          stmts = list(stmts) + [ast.Return(value=ast.Constant(value=None))]
+        return stmts
       out = []
       for s_ in stmts:
         if isinstance(s_, ast.Return):
